@@ -451,6 +451,184 @@ def effectivePassword (rule : CliRule) (cli file : List Bytes) : Option Bytes :=
   | .always => cli.getLast?
 end Code
 
+/-! ### The line grammar of the configuration file, with its switches (src/config/parser.rs) -/
+
+/-- `sdssplitargs` white space (C `isspace`). -/
+def isSp (b : Nat) : Bool := b == 32 || (9 ≤ b && b ≤ 13)
+
+def hexv (b : Nat) : Option Nat :=
+  if 48 ≤ b ∧ b ≤ 57 then some (b - 48) else if 97 ≤ b ∧ b ≤ 102 then some (b - 87) else if 65 ≤ b ∧ b ≤ 70 then some (b - 55) else none
+
+def hexd (n : Nat) : Nat := if n < 10 then 48 + n else 87 + n
+
+/-- the character behind a backslash inside double quotes -/
+def escChar (c : Nat) : Nat :=
+  if c = 110 then 10 else if c = 114 then 13 else if c = 116 then 9 else if c = 98 then 8 else if c = 97 then 7 else c
+
+/-- inside double quotes: `\\xHH`, `\\n \\r \\t \\b \\a`, `\\c` = c; the closing quote must be followed by white space or the end.
+    Returns the argument and what follows it; `none` = unbalanced quotes.  First argument: fuel (the length suffices). -/
+def dqF : Nat → Bytes → Bytes → Option (Bytes × Bytes)
+  | 0, _, _ => none
+  | _, _, [] => none
+  | f+1, acc, b :: t =>
+    if b = 92 then
+      match t with
+      | [] => none
+      | c :: t' =>
+        if c = 120 then
+          match t' with
+          | h1 :: h2 :: t'' =>
+            (match hexv h1, hexv h2 with
+             | some x, some y => dqF f (acc ++ [x * 16 + y]) t''
+             | _, _ => dqF f (acc ++ [120]) t')
+          | _ => dqF f (acc ++ [120]) t'
+        else dqF f (acc ++ [escChar c]) t'
+    else if b = 34 then
+      match t with
+      | [] => some (acc, [])
+      | c :: _ => if isSp c then some (acc, t) else none
+    else dqF f (acc ++ [b]) t
+
+def dq (acc s : Bytes) : Option (Bytes × Bytes) := dqF (s.length + 1) acc s
+
+/-- inside single quotes: only `\\'` is an escape -/
+def sqF : Nat → Bytes → Bytes → Option (Bytes × Bytes)
+  | 0, _, _ => none
+  | _, _, [] => none
+  | f+1, acc, b :: t =>
+    if b = 92 then
+      match t with
+      | 39 :: t' => sqF f (acc ++ [39]) t'
+      | _ => sqF f (acc ++ [92]) t
+    else if b = 39 then
+      match t with
+      | [] => some (acc, [])
+      | c :: _ => if isSp c then some (acc, t) else none
+    else sqF f (acc ++ [b]) t
+
+def sq (acc s : Bytes) : Option (Bytes × Bytes) := sqF (s.length + 1) acc s
+
+/-- an argument that starts unquoted: up to white space; a quote switches to the quoted mode, which ends the argument -/
+def tokU : Bytes → Bytes → Option (Bytes × Bytes)
+  | acc, [] => some (acc, [])
+  | acc, b :: t =>
+    if isSp b || b == 0 then some (acc, t)
+    else if b = 34 then dq acc t
+    else if b = 39 then sq acc t
+    else tokU (acc ++ [b]) t
+
+def skipSp : Bytes → Bytes
+  | [] => []
+  | b :: t => if isSp b then skipSp t else b :: t
+
+/-- Redis's `sdssplitargs`: the arguments of a line; `none` = unbalanced quotes (or a closing quote followed by text). -/
+def splitArgsF : Nat → Bytes → Option (List Bytes)
+  | 0, _ => none
+  | f+1, s =>
+    match skipSp s with
+    | [] => some []
+    | b :: t =>
+      match tokU [] (b :: t) with
+      | none => none
+      | some (a, rest) => (splitArgsF f rest).map fun as => a :: as
+
+def splitArgs (s : Bytes) : Option (List Bytes) := splitArgsF (s.length + 1) s
+
+/-- byte length of a `char::is_whitespace` character at the head of a UTF-8 string (0: none) -/
+def wsLen : Bytes → Nat
+  | 194 :: 133 :: _ => 2
+  | 194 :: 160 :: _ => 2
+  | 225 :: 154 :: 128 :: _ => 3
+  | 226 :: 128 :: b :: _ => if (128 ≤ b ∧ b ≤ 138) ∨ b = 168 ∨ b = 169 ∨ b = 175 then 3 else 0
+  | 226 :: 129 :: 159 :: _ => 3
+  | 227 :: 128 :: 128 :: _ => 3
+  | b :: _ => if (9 ≤ b ∧ b ≤ 13) ∨ b = 32 then 1 else 0
+  | [] => 0
+
+/-- `str::split_once(char::is_whitespace)`: the text before the first white-space character of any kind, and the rest -/
+def splitFirstWs : Bytes → Option (Bytes × Bytes)
+  | [] => none
+  | b :: t => if wsLen (b :: t) > 0 then some ([], (b :: t).drop (wsLen (b :: t)))
+              else (splitFirstWs t).map fun p => (b :: p.1, p.2)
+
+def BOM : Bytes := [239, 187, 191]
+
+def lowerAscii (s : Bytes) : Bytes := s.map fun b => if 65 ≤ b ∧ b ≤ 90 then b + 32 else b
+
+/-- The switches of the configuration-file grammar.  All `false` = the code as pinned (`Grammar.pinned`); all `true` = what
+    the property prescribes (`Grammar.spec`: Redis's reading of a redis.conf line). -/
+structure Grammar where
+  /-- the directive name ends at the first white space of ANY kind (false: at the first blank only — a TAB-separated line is
+      cut at a blank further right, e.g. inside a quoted password, and the mangled name is skipped as unknown) -/
+  anyWs : Bool
+  /-- a UTF-8 byte-order mark in front of the first line is not part of the directive name -/
+  bom : Bool
+  /-- the value of `requirepass` is the single `sdssplitargs` argument of the rest of the line (quotes and escapes removed;
+      no argument, several arguments or unbalanced quotes: the server does not start); false: the rest of the line verbatim -/
+  unquote : Bool
+  deriving DecidableEq, Repr
+
+def Grammar.pinned : Grammar := ⟨false, false, false⟩
+def Grammar.spec : Grammar := ⟨true, true, true⟩
+
+inductive LineResult
+  | skip                       -- empty line or comment
+  | requirepass (v : Bytes)    -- the password becomes `v`
+  | other                      -- another directive, known or (with a warning) unknown: the password is not touched
+  | error                      -- the server does not start
+  deriving DecidableEq, Repr
+
+inductive Outcome
+  | startError
+  | running (password : Option Bytes)
+  deriving DecidableEq, Repr
+
+namespace Code
+
+/-- the line as `parse_config_file` sees it before it cuts it: BOM (first line, if the grammar strips it), then `trim` -/
+def prepLine (g : Grammar) (first : Bool) (line : Bytes) : Bytes :=
+  trim (if g.bom && first && line.take 3 == BOM then line.drop 3 else line)
+
+/-- One line of the configuration file under grammar `g`. -/
+def parseLine (g : Grammar) (first : Bool) (line : Bytes) : LineResult :=
+  let l := prepLine g first line
+  if l = [] ∨ l.head? = some 35 then .skip else
+  match (if g.anyWs then splitFirstWs l else splitFirstBlank l) with
+  | none => .error                                       -- ConfigParseError::Format
+  | some (p, v) =>
+    if lowerAscii (if g.anyWs then p else trim p) = REQUIREPASS then
+      if g.unquote then
+        match splitArgs (trim v) with
+        | some [a] => if utf8Valid a then .requirepass a else .error      -- the password is a `String`
+        | _ => .error
+      else .requirepass (trim v)
+    else .other
+
+def loadFrom (g : Grammar) : Bool → Option Bytes → List Bytes → Outcome
+  | _, pw, [] => .running pw
+  | first, pw, l :: ls =>
+    match parseLine g first l with
+    | .error => .startError
+    | .requirepass v => loadFrom g false (some v) ls
+    | _ => loadFrom g false pw ls
+
+/-- The whole file: does the server start, and with which password (before the command line is applied)? -/
+def loadConfig (g : Grammar) (lines : List Bytes) : Outcome := loadFrom g true none lines
+
+end Code
+
+/-- A line that anybody reads as a `requirepass` directive: after an optional byte-order mark (first line) and surrounding
+    white space, its first white-space-delimited word is `requirepass` in any letter case.  (Independent of the switches.) -/
+def looksLikeRequirepass (first : Bool) (line : Bytes) : Bool :=
+  let l := trim (if first && line.take 3 == BOM then line.drop 3 else line)
+  match splitFirstWs l with
+  | some (p, _) => lowerAscii p == REQUIREPASS
+  | none => lowerAscii l == REQUIREPASS
+
+/-- the quoted form of an arbitrary byte string: printable ASCII except `"` and `\` as it is, everything else `\xHH` -/
+def quoteArg (p : Bytes) : Bytes :=
+  34 :: (p.flatMap fun b => if 32 ≤ b ∧ b < 127 ∧ b ≠ 34 ∧ b ≠ 92 then [b] else [92, 120, hexd (b / 16), hexd (b % 16)]) ++ [34]
+
 /-! ### What the property prescribes -/
 
 namespace Spec
